@@ -53,7 +53,9 @@ class Armorable(metaclass=abc.ABCMeta):
     #  - anything after a '#' that is not escaped or in a character class is ignored, allowing for comments
     __armor_regex = re.compile(r"""# This capture group is optional because it will only be present in signed cleartext messages
                          (^-{5}BEGIN\ PGP\ SIGNED\ MESSAGE-{5}(?:\r?\n)
-                          (Hash:\ (?P<hashes>[A-Za-z0-9\-,]+)(?:\r?\n){2})?
+                          # RFC 4880 section 7: one or more Hash armor headers (none at all if only MD5 is used),
+                          # each a comma-delimited list, then exactly one empty line that is not part of the text
+                          (?P<hashes>(?:Hash:[^\r\n]*(?:\r?\n))*)[ \t]*(?:\r?\n)
                           (?P<cleartext>(.*\r?\n)*(.*?(?=\r?\n-{5})))(?:\r?\n)
                          )?
                          # armor header line; capture the variable part of the magic text
@@ -141,7 +143,7 @@ class Armorable(metaclass=abc.ABCMeta):
         m = m.groupdict()
 
         if m['hashes'] is not None:
-            m['hashes'] = m['hashes'].split(',')
+            m['hashes'] = re.findall(r'[A-Za-z0-9\-]+', re.sub(r'^Hash:', '', m['hashes'], flags=re.MULTILINE)) or None
 
         if m['headers'] is not None:
             m['headers'] = collections.OrderedDict(re.findall('^(?P<key>.+?): (?P<value>.*?)\r?$\n?', m['headers'], flags=re.MULTILINE))
